@@ -8,6 +8,7 @@
 //! Cases:
 //!   match <variants|-> <V> <arm;;arm…>          arm := P (- | g E) E
 //!   fn <arity> <kind> <arm;;arm…> <how> <args>   arm := P E ; how := call | bcast:<r>x<c> ; args := S,S,…
+//!   fne <V enm> <arm;;arm…>                      a function of one parameter of the enum red(f64) | green(f64) | blue
 //! Observation: canonical value | `err`.
 use crate::common::*;
 use crate::interp::*;
@@ -92,6 +93,14 @@ pub fn source(case: &str) -> String {
       arms.push(format!("| {}{} => {}", p, g, b));
     }
     format!("{}res := src? {}.\nres", src, arms.join(" "))
+  } else if f[0] == "fne" {
+    // a function of one parameter of an enum kind: `fz(a<color>) => <f64>` with variant patterns and `*`, called with a value of the enum
+    let arms: Vec<String> = f[2].split(";;").map(|a| { let mut t = Toks::new(a); let p = p_src(&mut t); let b = e_src(&mut t, "fz"); format!("{} => {}", p, b) }).collect();
+    let mut src = String::from("<color> := :red<f64> | :green<f64> | :blue\nfz(a<color>) => <f64>\n");
+    for (i, a) in arms.iter().enumerate() { src.push_str(&format!("  {} {}{}\n", if i + 1 == arms.len() { "└" } else { "├" }, a, if i + 1 == arms.len() { "." } else { "" })); }
+    let mut vt = Toks::new(f[1]);
+    let v = v_src(&mut vt);
+    format!("{}src<color> := {}\nfz(src)", src, v)
   } else if f[0] == "fnt" {
     // a function of one tuple parameter: `fz(a<(u64,bool)>) => <u64>` with tuple patterns, called with a tuple
     let kinds = f[1];
@@ -301,6 +310,27 @@ pub fn generate(seed: u64, thorough: bool, sink: &mut Sink) -> Vec<String> {
       0 => { c.push_str(if is_match { "\tform=lit" } else { "\tform=var" }); sink.hit(if is_match { "matched-value:in-place" } else { "arguments:variables" }); }
       1 => { c.push_str("\tform=mut"); sink.hit(if is_match { "matched-value:mutable" } else { "arguments:mutable" }); }
       _ => { sink.hit(if is_match { "matched-value:variable" } else { "arguments:in-place" }); }
+    }
+  }
+  // functions of one enum parameter: variant arms in any order, the wildcard arm anywhere (or absent), variants left
+  // uncovered — accepted when there is a wildcard arm or every variant has an arm.  Its own generator state
+  {
+    let mut r3 = Rng::new(seed ^ 0xE9E);
+    for _ in 0..(if thorough { 1500 } else { 150 }) {
+      let n = 1 + r3.below(4) as usize;
+      let mut arms: Vec<String> = vec![];
+      for _ in 0..n {
+        let body_lit = format!("lit {}", nf(r3.range(0, 9)));
+        arms.push(match r3.below(5) {
+          0 => format!("sp _ {}", body_lit),
+          1 | 2 => { let tag = *r3.pick(&["red", "green"]);
+            match r3.below(3) { 0 => format!("enm {} $q var q", tag), 1 => format!("enm {} {} {}", tag, nf(r3.range(0, 3)), body_lit), _ => format!("enm {} _ {}", tag, body_lit) } }
+          3 => format!("enm blue - {}", body_lit),
+          _ => { let tag = *r3.pick(&["red", "green"]); format!("enm {} $q {}", tag, body_lit) } });
+      }
+      let v = match r3.below(3) { 0 => format!("enm red {}", nf(r3.range(0, 3))), 1 => format!("enm green {}", nf(r3.range(0, 3))), _ => "enm blue -".to_string() };
+      sink.hit("fn:enum-parameter");
+      cases.push(format!("fne\t{}\t{}", v, arms.join(";;")));
     }
   }
   cases
